@@ -84,11 +84,25 @@ EnumVals == << [name |-> <<69, 48>>, n |-> Zero],                        \* E0 =
                [name |-> <<69, 77>>, n |-> FromInt(-2)],                 \* EM = -2
                [name |-> <<69, 77, 65, 88>>, n |-> ISub(Pow2(31), One)], \* EMAX = 2^31-1
                [name |-> <<69, 77, 73, 78>>, n |-> INeg(Pow2(31))] >>    \* EMIN = -2^31
-EnumTy(syn) == IF syn = "p3" THEN <<99, 50, 48, 112, 51, 46, 69>> ELSE <<99, 50, 48, 46, 69>>   \* "c20p3.E" / "c20.E"
-MsgTy(syn)  == IF syn = "p3" THEN <<99, 50, 48, 112, 51, 46, 84>> ELSE <<99, 50, 48, 46, 84>>   \* "c20p3.T" / "c20.T"
-EnumOf(syn, j) == [t |-> "enum", nil |-> FALSE, n |-> EnumVals[j].n, name |-> EnumVals[j].name, ty |-> EnumTy(syn)]
-EnumIdxByNum(x)  == {j \in 1..Len(EnumVals) : IEq(EnumVals[j].n, x)}
-EnumIdxByName(s) == {j \in 1..Len(EnumVals) : EnumVals[j].name = s}
+\* the second enum type F and the second message type U of the schema: fields of the same
+\* kind but of another domain (kinds "enumf", "msgu")
+FVals == << [name |-> <<70, 48>>, n |-> Zero],           \* F0 = 0
+            [name |-> <<70, 49>>, n |-> One],            \* F1 = 1
+            [name |-> <<70, 54>>, n |-> FromInt(6)] >>   \* F6 = 6
+EnumKinds == {"enum", "enumf"}
+MsgKinds  == {"msg", "msgu"}
+ValsOf(k) == IF k = "enumf" THEN FVals ELSE EnumVals
+Pkg(syn)  == IF syn = "p3" THEN <<99, 50, 48, 112, 51, 46>> ELSE <<99, 50, 48, 46>>      \* "c20p3." / "c20."
+EnumTyK(k, syn) == Pkg(syn) \o (IF k = "enumf" THEN <<70>> ELSE <<69>>)                 \* E / F
+MsgTyK(k, syn)  == Pkg(syn) \o (IF k = "msgu" THEN <<85>> ELSE <<84>>)                  \* T / U
+EnumTy(syn) == EnumTyK("enum", syn)
+MsgTy(syn)  == MsgTyK("msg", syn)
+EnumOfK(k, syn, j) == [t |-> "enum", nil |-> FALSE, n |-> ValsOf(k)[j].n, name |-> ValsOf(k)[j].name, ty |-> EnumTyK(k, syn)]
+EnumOf(syn, j) == EnumOfK("enum", syn, j)
+IdxByNum(k, x)  == {j \in 1..Len(ValsOf(k)) : IEq(ValsOf(k)[j].n, x)}
+IdxByName(k, s) == {j \in 1..Len(ValsOf(k)) : ValsOf(k)[j].name = s}
+EnumIdxByNum(x)  == IdxByNum("enum", x)
+EnumIdxByName(s) == IdxByName("enum", s)
 
 (***************************************************************************)
 (* Structural equality, tag first.                                         *)
@@ -117,8 +131,8 @@ Default(k, syn) ==
     [] k \in {"float", "double"} -> [t |-> "float", s |-> 0, e |-> 0, m |-> <<0, 0, 0, 0>>]
     [] k = "string"   -> [t |-> "str", v |-> <<>>]
     [] k = "bytes"    -> [t |-> "bytes", v |-> <<>>]
-    [] k = "enum"     -> EnumOf(syn, 1)
-    [] k = "msg"      -> [t |-> "msg", ty |-> MsgTy(syn), f |-> <<>>]
+    [] k \in EnumKinds -> EnumOfK(k, syn, 1)
+    [] k \in MsgKinds  -> [t |-> "msg", ty |-> MsgTyK(k, syn), f |-> <<>>]
 
 (***************************************************************************)
 (* Judge(k, syn, v): what an assignment of v to a position of kind k must  *)
@@ -137,7 +151,7 @@ Reject    == [d |-> "reject", want |-> [mode |-> "none"]]
 DictMsgOK(v) == /\ Len(v.v) <= 1
                 /\ \A j \in 1..Len(v.v) : /\ v.v[j][1].t = "str" /\ v.v[j][1].v = <<105>>
                                           /\ InRange("int32", v.v[j][2])
-DictMsg(v, syn) == [t |-> "msg", ty |-> MsgTy(syn), f |-> [j \in 1..Len(v.v) |-> <<v.v[j][1].v, v.v[j][2]>>]]
+DictMsg(v, k, syn) == [t |-> "msg", ty |-> MsgTyK(k, syn), f |-> [j \in 1..Len(v.v) |-> <<v.v[j][1].v, v.v[j][2]>>]]
 
 JudgeFloat(k, v) ==
   IF v.t = "float" THEN
@@ -160,15 +174,16 @@ Judge(k, syn, v) ==
     [] k = "bytes"    -> IF v.t = "bytes" THEN Accept(v)
                          ELSE IF v.t = "str" THEN [d |-> "either", want |-> Exact([t |-> "bytes", v |-> v.v])]
                          ELSE Reject
-    [] k = "enum"     -> IF v.t = "int" THEN
-                              (IF EnumIdxByNum(BigOf(v)) # {} THEN Accept(EnumOf(syn, CHOOSE j \in EnumIdxByNum(BigOf(v)) : TRUE)) ELSE Reject)
+    [] k \in EnumKinds -> IF v.t = "int" THEN
+                              (IF IdxByNum(k, BigOf(v)) # {} THEN Accept(EnumOfK(k, syn, CHOOSE j \in IdxByNum(k, BigOf(v)) : TRUE)) ELSE Reject)
                          ELSE IF v.t = "str" THEN
-                              (IF EnumIdxByName(v.v) # {} THEN Accept(EnumOf(syn, CHOOSE j \in EnumIdxByName(v.v) : TRUE)) ELSE Reject)
+                              (IF IdxByName(k, v.v) # {} THEN Accept(EnumOfK(k, syn, CHOOSE j \in IdxByName(k, v.v) : TRUE)) ELSE Reject)
                          ELSE IF v.t = "enum" THEN
-                              (IF ~v.nil /\ v.ty = EnumTy(syn) THEN Accept(v) ELSE Reject)
+                              \* a value of another enum type is refused even if its number exists in this one
+                              (IF ~v.nil /\ v.ty = EnumTyK(k, syn) THEN Accept(v) ELSE Reject)
                          ELSE Reject
-    [] k = "msg"      -> IF v.t = "msg" THEN (IF v.ty = MsgTy(syn) THEN Accept(v) ELSE Reject)
-                         ELSE IF v.t = "dict" THEN (IF DictMsgOK(v) THEN Accept(DictMsg(v, syn)) ELSE Reject)
+    [] k \in MsgKinds  -> IF v.t = "msg" THEN (IF v.ty = MsgTyK(k, syn) THEN Accept(v) ELSE Reject)
+                         ELSE IF v.t = "dict" THEN (IF DictMsgOK(v) THEN Accept(DictMsg(v, k, syn)) ELSE Reject)
                          ELSE Reject
 
 \* a stored element is of the declared type and range
@@ -179,8 +194,8 @@ WellTyped(k, syn, x) ==
     [] k = "float"    -> x.t = "float" /\ (Fits32(x) \/ x.e < 1023 - 126)
     [] k = "string"   -> x.t = "str"
     [] k = "bytes"    -> x.t = "bytes"
-    [] k = "enum"     -> x.t = "enum" /\ ~x.nil /\ x.ty = EnumTy(syn) /\ EnumIdxByNum(x.n) # {}
-    [] k = "msg"      -> x.t = "msg" /\ x.ty = MsgTy(syn)
+    [] k \in EnumKinds -> x.t = "enum" /\ ~x.nil /\ x.ty = EnumTyK(k, syn) /\ IdxByNum(k, x.n) # {}
+    [] k \in MsgKinds  -> x.t = "msg" /\ x.ty = MsgTyK(k, syn)
 
 \* observed element x agrees with what had to be stored
 Stored(want, k, syn, x) ==
